@@ -6,6 +6,7 @@ package main
 import (
 	"flag"
 	"fmt"
+	"golang.org/x/tools/go/ssa"
 	"os"
 	"path/filepath"
 	"sort"
@@ -90,6 +91,7 @@ func main() {
 	dump := flag.String("dump", "", "debug: dump SSA of function spec")
 	tags := flag.String("tags", "", "debug: build tags for -dump")
 	emit := flag.Bool("emit", false, "debug: print the raw emission sites per mode")
+	termsOf := flag.String("terms", "", "debug: print effects, returns and call argument terms of function spec")
 	snapshot := flag.String("snapshot", "", "maintenance: record the declared objects of the tree as anchors.json (argument: commit id)")
 	flag.Parse()
 	if *repo != "" {
@@ -117,6 +119,48 @@ func main() {
 		if err := writeAnchorSnapshot(*snapshot); err != nil {
 			fmt.Fprintln(os.Stderr, err)
 			os.Exit(2)
+		}
+		return
+	}
+	if *termsOf != "" {
+		p, err := Load(*tags, nil)
+		if err != nil {
+			fmt.Fprintln(os.Stderr, err)
+			os.Exit(2)
+		}
+		for _, spec := range strings.Split(*termsOf, ",") {
+			fn := p.F(spec)
+			if fn == nil {
+				fmt.Println("not found:", spec)
+				continue
+			}
+			te := newTermEval(p)
+			fmt.Println("==", shortName(fn))
+			for _, ef := range te.effectsOf(fn, nil) {
+				fmt.Printf("  effect %-9s %s.%s base=%s key=%s val=%s  @%s in %s\n", ef.Kind, ef.Struct, ef.Field, ef.Base, ef.Key, ef.Val, p.Pos(instrPos(ef.Instr)), shortName(ef.Fn))
+			}
+			for _, b := range fn.Blocks {
+				for _, in := range b.Instrs {
+					switch x := in.(type) {
+					case *ssa.Return:
+						for i, rv := range x.Results {
+							fmt.Printf("  return#%d %s\n", i, te.eval(rv, nil))
+						}
+					case *ssa.Store:
+						fmt.Printf("  store *%s = %s  @%s\n", te.eval(x.Addr, nil), te.eval(x.Val, nil), p.Pos(instrPos(x)))
+					case ssa.CallInstruction:
+						var as []string
+						for _, a := range x.Common().Args {
+							as = append(as, te.eval(a, nil).String())
+						}
+						name := invokeName(x)
+						if cal := calleeOf(x); cal != nil {
+							name = shortName(cal)
+						}
+						fmt.Printf("  call %s(%s)  @%s\n", name, strings.Join(as, "; "), p.Pos(instrPos(x)))
+					}
+				}
+			}
 		}
 		return
 	}
